@@ -47,16 +47,17 @@ fn pattern(r: &mut Rng) -> String {
                          "if (f()) then print(1) end", "while (t:m()) do print(1) end", "repeat print(1) until (...)", "if (not f()) then print(1) elseif (f()) then print(2) end"])).to_string(),
         15 => format!("print({} {} {})", r.pick(&["x", "{}", "{ 1 }", "(x)", "({})"]), r.pick(&["==", "~=", "<", "<=", ">", ">=", "+", ".."]), r.pick(&["{}", "y", "{ a = 1 }", "({})", "#t"])),
         16 => (*r.pick(&["print(type(x == \"number\"))", "print(type(x) == \"number\")", "if type(x == 'string') then print(1) end", "print(type(x ~= \"number\"))",
-                         "print(type(x == y))", "print(typeof(x == \"number\"))", "print(type(x == \"a\", 2))", "print(type((x == \"a\")))", "print(t.type(x == \"a\"))", "print(type \"a\")"])).to_string(),
+                         "print(type(x == y))", "print(typeof(x == \"number\"))", "print(type (x == \"a\"))", "assert(\n    type(x == \"number\"), 1)", "local ok =\n  type(x == \"s\")\nprint(ok)", "print(type --[[c]] (x == \"b\"))", "print(type(x == \"a\", 2))", "print(type((x == \"a\")))", "print(t.type(x == \"a\"))", "print(type \"a\")"])).to_string(),
         17 => (*r.pick(&["local m1 = { f(), a = 1 }", "local m2 = { a = 1; 2 }", "local m3 = { [1] = 1, 2 }"])).to_string(),
         0 | 1 => format!("print({} / {})", r.pick(&OPERANDS), r.pick(&ZEROS)),
         2 => format!("print({} / {})", r.pick(&ZEROS), r.pick(&ZEROS)),
-        3 => format!("local nanq = x {} {} / {}\nprint(nanq)", r.pick(&["==", "~=", "<"]), r.pick(&ZEROS), r.pick(&ZEROS)),
+        3 => format!("local nanq = {} {} {} / {}\nprint(nanq)", r.pick(&["x", "x", "t[i]", "t[1]", "t.k", "t[\"k\"]", "(x)", "f()", "t.a.b"]), r.pick(&["==", "~=", "<"]), r.pick(&ZEROS), r.pick(&ZEROS)),
         4 | 5 => format!("for i = #t, {}{} do print(i) end", r.pick(&ENDS), r.pick(&["", "", "", ", -1", ", 1"])),
         6 => format!("for i = {}, {} do print(i) end", r.pick(&["1", "#t + 1", "n", "(#t)"]), r.pick(&ENDS)),
         7 => (*r.pick(&["if x then end", "if x then print(1) elseif y then else end", "if x then\n-- c\nend", "if x then print(1) else end", "if x then print(1) end"])).to_string(),
         8 => (*r.pick(&["while x do end", "for i = 1, 2 do end", "for k in pairs(t) do end", "repeat until x", "while x do print(1) end", "while x do\n--c\nend"])).to_string(),
-        9 | 10 => (*r.pick(&["a, b, c = 1", "a = 1, 2", "a, b = f()", "a, b, c = f(), 2", "a, b = nil", "a, b = ...", "local p, q = 1", "local p = 1, 2", "local p, q = (f())", "a, b = 1, 2", "local p, q", "a, b, c = x, (nil)"])).to_string(),
+        9 | 10 => (*r.pick(&["a, b, c = 1", "a = 1, 2", "a, b = f()", "a, b, c = f(), 2", "a, b = nil", "a, b = ...", "local p, q = 1", "local p = 1, 2", "local p, q = (f())", "a, b = 1, 2", "local p, q", "a, b, c = x, (nil)",
+                         "a = 1, f()", "a, b = 1, 2, nil", "local c1 = 1, (f())", "a = 1, ...", "a, b = 1, 2, (nil)", "local c2, c3 = 1, 2, f()", "a = f(), 2"])).to_string(),
         _ => format!("print({} / {} / {})", r.pick(&OPERANDS), r.pick(&ZEROS), r.pick(&ZEROS)),
     }
 }
